@@ -12,6 +12,7 @@ import (
 	"encoding/binary"
 	"errors"
 	"fmt"
+	"io"
 	"net"
 	"os"
 	"path/filepath"
@@ -34,6 +35,7 @@ type c16Peer interface {
 	Send(b []byte) error // peer -> client
 	Received() []byte    // everything the peer got from the client so far
 	Hangup()             // the peer goes away (connection closed from the far side)
+	Freeze()             // the peer stops reacting (hung device, dead path): nothing is read or answered any more
 	Stop()               // release everything
 }
 
@@ -150,6 +152,8 @@ func (p *c16TCPPeer) Hangup() {
 	}
 }
 
+func (p *c16TCPPeer) Freeze() {}
+
 func (p *c16TCPPeer) Stop() {
 	_ = p.ln.Close()
 	p.Hangup()
@@ -180,7 +184,55 @@ func c16Signer() ssh.Signer {
 	return c16HostKey
 }
 
+// gatedConn lets the ssh server stop reading from its socket: a frozen peer answers nothing, not
+// even the channel-close message.
+type gatedConn struct {
+	net.Conn
+	mu     sync.Mutex
+	frozen chan struct{}
+}
+
+func (g *gatedConn) Read(b []byte) (int, error) {
+	g.mu.Lock()
+	f := g.frozen
+	g.mu.Unlock()
+	if f != nil {
+		<-f
+	}
+	n, err := g.Conn.Read(b)
+	g.mu.Lock()
+	f = g.frozen
+	g.mu.Unlock()
+	if f != nil && err == nil {
+		// froze while this read was pending: hold the bytes back for good
+		<-f
+		return 0, io.EOF
+	}
+	return n, err
+}
+
+func (g *gatedConn) freeze() {
+	g.mu.Lock()
+	if g.frozen == nil {
+		g.frozen = make(chan struct{})
+	}
+	g.mu.Unlock()
+}
+
+func (g *gatedConn) release() {
+	g.mu.Lock()
+	if g.frozen != nil {
+		select {
+		case <-g.frozen:
+		default:
+			close(g.frozen)
+		}
+	}
+	g.mu.Unlock()
+}
+
 type c16SSHPeer struct {
+	gate *gatedConn
 	recvLog
 	ln      net.Listener
 	mu2     sync.Mutex
@@ -226,8 +278,11 @@ func newC16SSHPeer(auth string, marker []byte, dev sim.Device) (*c16SSHPeer, err
 		if err != nil {
 			return
 		}
+		gc := &gatedConn{Conn: nconn}
+		nconn = gc
 		p.mu2.Lock()
 		p.nconn = nconn
+		p.gate = gc
 		p.mu2.Unlock()
 		sconn, chans, greqs, err := ssh.NewServerConn(nconn, cfg)
 		if err != nil {
@@ -347,8 +402,23 @@ func (p *c16SSHPeer) Hangup() {
 	}
 }
 
+func (p *c16SSHPeer) Freeze() {
+	p.mu2.Lock()
+	g := p.gate
+	p.mu2.Unlock()
+	if g != nil {
+		g.freeze()
+	}
+}
+
 func (p *c16SSHPeer) Stop() {
 	_ = p.ln.Close()
+	p.mu2.Lock()
+	g := p.gate
+	p.mu2.Unlock()
+	if g != nil {
+		g.release()
+	}
 	p.Hangup()
 	select {
 	case <-p.stopped:
@@ -408,6 +478,7 @@ func (p *c16PtyPeer) Received() []byte {
 	return b
 }
 func (p *c16PtyPeer) Hangup() {}
+func (p *c16PtyPeer) Freeze() {}
 func (p *c16PtyPeer) Stop() {
 	_ = os.Remove(p.in)
 	_ = os.Remove(p.out)
